@@ -853,7 +853,9 @@ func genURRs(t *rapid.T) []URR {
 		if !exists[k] {
 			u.Verb = "create"
 		} else {
-			u.Verb = rapid.SampledFrom([]string{"update", "update", "remove"}).Draw(t, "verb")
+			// now and then a Create for a URR that is already there (the data plane refuses it and keeps the installed rule): its
+			// periodic registration must stay what it was
+			u.Verb = rapid.SampledFrom([]string{"update", "update", "update", "update", "remove", "remove", "create"}).Draw(t, "verb")
 		}
 		if u.Verb != "remove" {
 			if u.Verb == "create" || rapid.Bool().Draw(t, "hasmethod") {
